@@ -27,6 +27,8 @@ def run(tier):
         chk.evaluations += r['keys']
         chk.count('keys_' + kt, r['keys'])
         chk.count('loaded_keys_' + kt, r.get('loaded', 0))
+        chk.count('messages_longer_than_4000_bytes', r.get('long_msgs', 0))
+        chk.count('ec_keys_with_compressed_point', r.get('compressed', 0))
         chk.count('signatures_verified', r['sigs'])
         for k in ('lead0_x', 'lead0_y', 'short_r', 'short_s'):
             if r[k]:
@@ -52,7 +54,7 @@ def run(tier):
         for k in ('lead0_x', 'lead0_y', 'short_r', 'short_s'):
             if r[k]:
                 chk.distinct.add('%s:%s' % (r['key_type'], k))
-    chk.rule = ('fresh keys per key type through acme_common::gen_keypair, every fourth one made by OpenSSL alone and loaded from PKCS#8 / traditional PEM or DER (RSA with public exponents 3..2^32+1), 3 random messages each; a case is '
+    chk.rule = ('fresh keys per key type through acme_common::gen_keypair, every fourth one made by OpenSSL alone and loaded from PKCS#8 / traditional PEM or DER (RSA with public exponents 3..2^32+1, EC keys with compressed points), 3 random messages each of 0-300 bytes and now and then 4-64 KiB; a case is '
                 'distinct/non-trivial per key type and per rare encoding class actually observed '
                 '(leading-zero coordinate, short R, short S)')
     chk.notes['rare_encodings_observed'] = rare
